@@ -494,6 +494,38 @@ def setter_target(prog, usr):
     return tg
 
 
+_UPPER_OK = {}
+
+
+def toupper_keeps_length(prog):
+    """ezc3d::toUpper returns a string of the same length as its argument: its body only copies the argument and transforms the
+    characters in place (no erase / resize / substr / trimming)"""
+    key = id(prog)
+    if key not in _UPPER_OK:
+        ok = False
+        try:
+            f = prog.fn('ezc3d::toUpper', nparams=1)
+            names = {c['callee']['name'] for c in f.calls()}
+            ok = f.body is not None and not (names & {'erase', 'resize', 'substr', 'pop_back', 'removeTrailingSpaces', 'assign', 'clear', 'push_back', 'append', 'insert', 'operator+=', 'replace'}) and \
+                ('transform' in names or 'toupper' in names)
+        except Exception:
+            ok = False
+        _UPPER_OK[key] = ok
+    return _UPPER_OK[key]
+
+
+def upper_len_norm(prog, txt):
+    """`ezc3d::toUpper(E).size` is `E.size` when toUpper keeps the length"""
+    if txt is None or 'toUpper(' not in str(txt) or not toupper_keeps_length(prog):
+        return txt
+    prev = None
+    t = str(txt)
+    while prev != t:
+        prev = t
+        t = re.sub(r'ezc3d::toUpper\(((?:[^()]|\([^()]*\))*)\)\.size', r'\1.size', t)
+    return t
+
+
 class Checker:
     """sequential matcher over one level of an item tree; each expectation is one obligation"""
 
@@ -534,6 +566,10 @@ class Checker:
         # an uncounted loop, ...) is an unknown idiom, not a demonstrated mismatch
         global _LAST
         nx_ = self.peek()
+        if getattr(self, 'seen_unknown', False) and 'expected' in detail and 'found' in detail:
+            # an earlier output of this sequence could not be tabulated (a buffer, a helper): it may well carry the bytes that are looked for here
+            _LAST = None
+            return self.shape(slot, where, detail + ' (an earlier output of this sequence is in a form the extractor does not tabulate and may hold this field)')
         if 'end of sequence' in detail and nx_ is not None and nx_[0] == 'call':
             _LAST = None
             return self.shape(slot, where, detail.replace('end of sequence', 'a call of %s' % nx_[1].name) + ' (the field is emitted through another function of the writer family)')
@@ -550,6 +586,7 @@ class Checker:
     def unknown(self, slot, where, detail):
         """the code uses an I/O idiom the extractor does not model: the table cannot be compared"""
         self.failed = True
+        self.seen_unknown = True
         self.res.undecided(self.rule, '%s.%s' % (self.prefix, slot), where, detail, function=self.fn.sig, expr='%s.%s' % (self.prefix, slot))
 
     def shape(self, slot, where, detail):
@@ -633,7 +670,7 @@ class Checker:
         if d.get('src') != src:
             self.bad(slot, d['where'], 'characters come from %s, specified %s' % (d.get('src'), src), facts={'cite': cite})
             return d
-        if pshow(d.get('width')) != width:
+        if upper_len_norm(self.prog, pshow(d.get('width'))) != width:
             self.bad(slot, d['where'], '%s byte(s) are written, specified %s' % (pshow(d.get('width')) if d.get('width') is not None else '/'.join(pshow(a) for a in d.get('width_alts', [])), width), facts={'cite': cite})
             return d
         self.ok(slot, d['where'], '%s characters of %s' % (width, src))
@@ -1477,8 +1514,21 @@ def parameter_reader_rule(prog, res, rule='parameter-read'):
                         m = f.nodes[x]
                         if m['k'] == 'CXXMemberCallExpr' and m['callee']['name'] == 'push_back' and R.render(m['obj']) == 'this._dimension':
                             pushes.append(R.render(m['args'][0]))
+            if not pushes and len(alt) > 5 and alt[5] is not f:
+                # the alternative lives in a member / helper the reader was split into: look at that statement itself
+                fn_ = alt[5]
+                Rn = Renderer(fn_)
+                n_ = fn_.nodes[alt[4]] if alt[4] is not None and alt[4] < len(fn_.nodes) else None
+                if n_ is not None and n_['k'] == 'IfStmt':
+                    br = n_['then'] if scalar_is_then else n_.get('else')
+                    for x in (fn_.descendants(br) if br is not None else []):
+                        m = fn_.nodes[x]
+                        if m['k'] == 'CXXMemberCallExpr' and m['callee']['name'] == 'push_back' and Rn.render(m['obj']) == 'this._dimension':
+                            pushes.append(Rn.render(m['args'][0]))
             if pushes == ['1'] or pushes == ['(unsigned long)1']:
                 ck.ok('dims.scalar', ck.where(alt), '0 dimensions -> dimension [1] (inverse of the writer\'s scalar case)')
+            elif not pushes:
+                ck.shape('dims.scalar', ck.where(alt), 'cannot find how the scalar branch sets the dimensions (expected _dimension.push_back(1))')
             else:
                 ck.bad('dims.scalar', ck.where(alt), 'a scalar (0 dimensions) must become dimension [1]; found push_back of %s' % pushes)
         els = io_only(alt[3])
